@@ -341,12 +341,19 @@ pub fn recreate_shapes(dir: &str, n: usize, out: &mut Vec<Value>) {
     for (shape, cfg) in [("path-only", json!({"path": format!("{dir}/shape-path-only")})),
                          ("path-only-lowspace", json!({"path": format!("{dir}/shape-path-ls"), "mode": "LowSpace", "cache_capacity": 1000000u64}))] {
         for k in 0..n {
+            // the store removes the directory of such a location some time after the drop; every other cycle the state
+            // "still there" is made certain (an emptied directory) instead of left to the scheduler
+            if k % 2 == 1 {
+                let _ = std::fs::create_dir_all(cfg["path"].as_str().unwrap());
+            }
             let t0 = Instant::now();
             let r = catch(AssertUnwindSafe(|| new_rln(14, &cfg)));
             let ms = t0.elapsed().as_millis() as u64;
             match r {
                 Ok(Ok(mut r)) => {
-                    let _ = r.set_leaf(k, Cursor::new(enc_fr(&Fr::from(k as u64 + 1))));
+                    // (a few hundred leaves: the store has something to remove when the instance goes away)
+                    let leaves: Vec<Fr> = (0..300u64).map(|j| Fr::from(j + 1000 * k as u64 + 1)).collect();
+                    let _ = r.set_leaves_from(0, Cursor::new(enc_vec_fr(&leaves)));
                     out.push(json!({"t": "recreate", "shape": shape, "n": k, "res": "ok", "ms": ms}));
                     drop(r);
                 }
